@@ -189,15 +189,19 @@ class BMC:
 
     # ------------------------------------------------------------------ trace extraction
     def trace(self, model):
+        """Step list for replay: per step the thread, the queue choice, and its gate-able operations in order."""
+        enc = self.enc
         out = []
         threads = ["main"] + list(range(self.W))
         for st in self.steps:
             sv = model.eval(st["sched"], model_completion=True).as_long()
             if sv == self.W + 1:
-                out.append({"thread": "stutter"})
-                continue
+                continue  # stutter
             if sv == self.W + 2:
-                out.append({"thread": "interrupt"})
+                pcv = model.eval(st["state"].sc["pc_main"], model_completion=True).as_long()
+                lab = [l for l, i in enc.labels["main"].items() if i == pcv][0]
+                ins = enc.progs["main"].instrs[lab]
+                out.append({"thread": "interrupt", "at": lab, "line": ins.line, "at_gate": gate_of(enc, "main", ins)})
                 continue
             if sv >= len(threads):
                 out.append({"thread": f"?{sv}"})
@@ -210,27 +214,43 @@ class BMC:
                     break
             ch = model.eval(st["choice"], model_completion=True).as_long()
             if hit is None:
-                out.append({"thread": tid, "path": None})
-            else:
-                out.append({"thread": tid, "start": hit.start, "next": hit.next, "choice": ch,
-                            "ops": [(i.op, i.line, _brief(i), d) for i, d in hit.items if i.op in ("env", "fnstart", "fnend", "store", "load", "loadmap", "storemap", "raise")]})
+                out.append({"thread": tid, "gates": [], "note": "no enabled path under the model"})
+                continue
+            gates = []
+            for i, d in hit.items:
+                gk = gate_of(enc, "main" if tid == "main" else "worker", i)
+                if gk:
+                    gates.append({"g": gk, "line": i.line, "dir": d})
+            out.append({"thread": tid, "start": hit.start, "next": hit.next, "choice": ch, "gates": gates,
+                        "lines": sorted({i.line for i, _ in hit.items})})
         return out
 
 
-def _brief(i):
+def gate_of(enc, pname, i):
+    """Name of the run-time hook at which the replay controller can observe this IR instruction (None: not observable)."""
     a = i.a
+    if i.op == "fnstart":
+        return "fnstart"
+    if i.op == "fnend":
+        return "fnend"
     if i.op == "env":
-        if a[0] in ("acquire", "release"):
-            return f"{a[0]} {a[1][1]}"
+        if a[0] == "acquire":
+            return "lock.acquire:" + a[1][1]
+        if a[0] == "release":
+            return "lock.release:" + a[1][1]
         if a[0] == "method":
-            return f".{a[2]}"
-        if a[0] == "call":
-            return f"{a[1]}()"
-        return a[0]
-    if i.op in ("load",):
-        return str(a)
-    if i.op == "store":
-        return str(i.dst)
-    if i.op in ("loadmap", "storemap"):
-        return str(a[0])
-    return ""
+            if a[2] in ("get", "put", "task_done") or (a[2] == "join" and a[1] == ("objvar", "queue")):
+                return "q." + a[2]
+            if a[2] == "Thread":
+                return "thread.new"
+            if a[2] == "start":
+                return "thread.start"
+            if a[2] == "join":
+                return "thread.join"
+        return None
+    if i.op in ("load", "store", "loadmap", "storemap"):
+        loc = enc._location(i)
+        if loc in enc.shared_mut and loc not in enc.protected:
+            kind = "load" if i.op in ("load", "loadmap") else "store"
+            return f"{loc[0]}:{loc[1]}:{kind}"
+    return None
